@@ -454,6 +454,25 @@ def fixed_cases(ctx: Ctx):
                                         ["threads", [[1, None], [2, None], [0, None]], "coop",
                                          [[0, run], [1, run + 3], [2, run]]]]}
     yield {"texts": texts2, "ops": [["threads", [[0, None], [1, None], [2, None], [1, None]], "os", []]]}
+    # [Song] sections in which a field is written twice (the first line counts), after charts that carry the same
+    # field on the line index of the SECOND occurrence; and charts that share a long, byte-identical instrument
+    # section but differ in their tempo maps (what one parse remembers about lines or sections by position or by
+    # text must not colour the next)
+    def with_song(song, tempo2=90000, long_track=False):
+        sp = copy.deepcopy(a)
+        sp["song"] = song
+        sp["sync"] = [[0, "TS", 4], [0, "B", 120000], [96, "B", tempo2]]
+        if long_track:
+            sp["tracks"] = {"ExpertSingle": [[k * 48, "N", k % 5, 0 if k % 3 else 20] for k in range(80)]}
+        return S.render(sp)
+    s1 = [["Artist", '"a1"'], ["Charter", '"c1"'], ["Resolution", "192"], ["Name", '"from A"'], ["Offset", "4"]]
+    s2 = [["Name", '"first"'], ["Offset", "1"], ["Resolution", "192"], ["Name", '"second"'], ["Offset", "2"]]
+    s3 = [["Offset", "7"], ["Name", '"n3"'], ["Resolution", "192"], ["Artist", '"x"'], ["Artist", '"y"']]
+    dup_texts = [with_song(s1), with_song(s2), with_song(s3), with_song(s2, long_track=True),
+                 with_song(s1, tempo2=200000, long_track=True), with_song(s3, tempo2=60000, long_track=True)]
+    yield {"texts": dup_texts, "ops": [["parse", i, None] for i in (0, 1, 2, 1, 0, 2, 1)]}
+    yield {"texts": dup_texts, "ops": [["parse", i, None] for i in (3, 4, 5, 3, 5, 4, 0, 3)]}
+    yield {"texts": dup_texts, "ops": [["parse", i, None] for i in (5, 4, 3, 2, 1, 0)]}
     # a chart whose event times are exact half microseconds (120 BPM at 192 ticks per beat: ticks = 3 mod 6), with
     # even and odd integer parts: how such a tie is rounded must not depend on the thread a parse runs on
     tie = {"res": 192, "sync": [[0, "TS", 4], [0, "B", 120000], [600, "B", 96000]],
